@@ -159,8 +159,8 @@ type sim struct {
 	ehNext  int64 // height the node is working on = 1 + highest end-height marker written so far
 	// 1 + highest marker ever acknowledged as durable: those heights stay finished whatever happens to the records
 	ehDurable int64
-	tainted bool  // a byte was flipped: completeness is no longer demanded
-	refused bool
+	tainted   bool // a byte was flipped: completeness is no longer demanded
+	refused   bool
 
 	// bookkeeping for the non-triviality rule and the class histogram
 	crashes          int
@@ -1447,8 +1447,7 @@ func TestWALHistories(t *testing.T) {
 			"write3":      writeOp(false),
 			"writeSync1":  writeOp(true),
 			"writeSync2":  writeOp(true),
-			"endHeight1":  endHeight,
-			"endHeight2":  endHeight,
+			"endHeight":   endHeight,
 			"flushSync":   func(t *rapid.T) { s.flushAndSync() },
 			"limits1":     limits,
 			"limits2":     limits,
